@@ -18,3 +18,9 @@ add("C09",
     "The finite part is enumerated completely: every reachable state pair x every symbol must agree on action kind, reduce rule, error message (after default fallback), expected-token set and goto definedness, for the module and expression parsers; the generated part cross-checks ParseResults on ~10^3-10^4 token sequences.",
     "Trusts: the fresh generator as reference (C08 checks it); isomorphism of canonical LR(1) automata; my reader of doc/grammar.md's production listing.",
     "DESIGN.md §4 C09")
+
+add("C08",
+    "property-based testing: Hypothesis-generated CFGs x exhaustive strings up to length 5-6, built under 8 PYTHONHASHSEEDs in subprocesses, against an independent Earley recognizer, viable-prefix error-position oracle, derivation checker and bounded ambiguity search; Emboss grammar sentences/mutations differentially",
+    "For ~500 (quick) to ~5000 (thorough) small grammars every string up to the length bound is run through the generated parser and the Earley oracle (accept/reject, derivation validity, first-error position and expected-token set on reduced grammars, conflicts on provably ambiguous grammars, no exception from the generator); the Emboss grammar is cross-checked on sampled and mutated sentences.",
+    "Trusts: my Earley implementation; bounded ambiguity search (misses are not claims); position clause applied to reduced grammars only.",
+    "DESIGN.md §4 C08")
